@@ -17,6 +17,9 @@ Ties per case (DESIGN.md §6/C01, design_notes/C01.md):
 * sequences: rows serialised one after another in one process (state shared between calls), every
   record decoded afterwards, the concatenation cut into records by the length fields
   (`Model/RowStream.lean`, theorem `split_concat`);
+* two callers at the same time (`kind: conc`): two real `as_bytes` / `from_bytes` calls in two threads under the
+  deterministic line-granular scheduler (harness/sched.py), every schedule with one pre-emption (two in the thorough
+  tier); every emitted record / decoded row is judged by the same oracle, every emitted record is compared with the model;
 * encoder refusals (nesting beyond ormsgpack's limit, integers beyond 64 bits, payload above the
   cap): no record is emitted on either side;  `default=` glue: what non-native items turn into.
 """
@@ -31,6 +34,7 @@ from .. import core, gen, wire
 from ..core import InfraError, shrink
 
 MAX = 16 * 1024 * 1024
+MODEL_TEARS = int(os.environ.get("C01_MODEL_TEARS", "4096"))  # records up to this size: every tear point also goes to the model
 _R = {}
 HISTORY = []  # (row, tuples) of everything serialised in this process by the run, in order
 _RECORD_HISTORY = [True]
@@ -247,8 +251,8 @@ def mutations(case, rec, rng_seed, light=False):
         pts = set(range(0, 40)) | set(range(n - 40, n)) | {n // 2, 13, 14, 15}
         pts |= {rng.randrange(n) for _ in range(80 if not light else 10)}
         points = sorted(p for p in pts if 0 <= p < n)
-    if n <= 600 and not light:
-        model_points = set(points)
+    if n <= MODEL_TEARS and not light:
+        model_points = set()  # all of them, through the `tears` op (one model call, run-length answer): see evaluate / eval_row
     elif not huge:
         model_points = {0, 1, 2, 5, 6, 13, 14, 15, 16, n // 2, n - 2, n - 1} | {rng.choice(points) for _ in range(28)}
     else:
@@ -256,6 +260,10 @@ def mutations(case, rec, rng_seed, light=False):
     for k in points:
         out.append(("torn", ["t", k], True, k in model_points))
     out.append(("ext1", ["x", b"\x00"], True, True))
+    # what glue in front of the decoder is most likely to strip: line terminators, blanks (deterministic, so that a
+    # failure survives shrinking of the row)
+    for sfx in (b"\n", b"\r\n", b" "):
+        out.append(("ext-terminator", ["x", sfx], True, not huge))
     out.append(("ext1", ["x", bytes([rng.getrandbits(8)])], True, not huge))
     out.append(("extN", ["x", bytes(rng.getrandbits(8) for _ in range(rng.randint(2, 20)))], True, not huge))
     out.append(("ext2", ["x", rec], True, not huge))
@@ -326,6 +334,10 @@ def valid_case(c):
         return isinstance(rows, list) and len(rows) >= 1 and all(valid_row(r) for r in rows)
     if k == "bytes":
         return isinstance(c.get("data"), bytes) and isinstance(c.get("width"), int)
+    if k == "conc":
+        ts = c.get("threads")
+        return isinstance(ts, list) and len(ts) >= 2 and all(isinstance(t, dict) and t.get("op") in ("enc", "dec") and valid_row(t.get("row")) for t in ts) \
+            and all(isinstance(x, int) and 0 <= x < len(ts) for x in c.get("schedule", []))
     return k in ("reserved", "refuse", "big", "deep", "glue")
 
 
@@ -574,6 +586,10 @@ def evaluate(ctx, cases):
     """Run a batch: implementation (both decoders), oracle, model, comparison."""
     lines = []
     plan = []
+    conc = [c for c in cases if c.get("kind") == "conc"]
+    if conc:
+        evaluate_conc(ctx, [(c, conc_run(c)) for c in conc])
+        cases = [c for c in cases if c.get("kind") != "conc"]
     for c in cases:
         c = expand(c)
         k = c["kind"]
@@ -588,6 +604,8 @@ def evaluate(ctx, cases):
                 if k == "reserved":
                     muts = muts[-3:]
                 lines.append("C01 mutants " + wire.line(rec, [d for _, d, _, tm in muts if tm]))
+                if len(rec) <= MODEL_TEARS and not c.get("light", False) and k == "row":
+                    lines.append("C01 tears " + wire.line(rec, 0, len(rec)))
             plan.append((c, first, len(lines), (rec, err, muts)))
         elif k == "bytes":
             lines.append("C01 decode " + wire.line(c["data"]))
@@ -639,6 +657,8 @@ def eval_row(ctx, c, rec, err, muts, mo):
     nontrivial = len(row) >= 1 and rec is not None
     ctx.case(shown, nontrivial)
     ctx.hit("kind:" + ("deep" if deep is not None else c["kind"]))
+    if c.get("why"):
+        ctx.hit("why:" + c["why"].rstrip("-0123456789"))
     if c.get("shape"):
         ctx.hit("shape:%s" % c["shape"])
         ctx.hit("shape-width:%d" % len(row) if len(row) < 1000 else "shape-width:>=65535")
@@ -695,6 +715,28 @@ def eval_row(ctx, c, rec, err, muts, mo):
                 ctx.disagree({"kind": "bytes", "width": len(row), "data": datas[i + 1], "from": muts[i][0]}, {"decode": g, "decoder": who}, {"decode": m},
                              "decoder outcome on a %s record differs%s" % (muts[i][0], WHO[who]))
                 return
+    if len(mo) > 2:
+        # every tear point of the record on the model, as runs of equal outcomes, against both decoders
+        runs = model_forms(mo[2], "tears")[0]
+        want = []
+        for form, count in runs:
+            want += [model_decode_form(form)] * count
+        torn = [i for i, m in enumerate(muts) if m[0] == "torn"]
+        if len(want) != len(rec) or [muts[i][1][1] for i in torn] != list(range(len(rec))):
+            raise InfraError("tears: %d model answers, %d tear points for a record of %d bytes" % (len(want), len(torn), len(rec)))
+        ctx.hit("model-tear-points", len(want))
+        for who in ("bin", "src"):
+            outs = outcomes[who]
+            if outs is None:
+                continue
+            for i, m in zip(torn, want):
+                g = outs[i + 1][0]
+                if who == "bin":
+                    ctx.hit("mutation:torn->%s" % (g[1] if g[0] == "err" else "ok"))
+                if g != m and not wire.same(g, m):
+                    ctx.disagree({"kind": "bytes", "width": len(row), "data": datas[i + 1], "from": "torn"}, {"decode": g, "decoder": who}, {"decode": m},
+                                 "decoder outcome on a torn record differs" + WHO[who])
+                    return
     if outcomes["src"] is not None and outcomes["src"] != outcomes["bin"]:
         for i, (x, y) in enumerate(zip(outcomes["bin"], outcomes["src"])):
             if x != y and not wire.same(x[0], y[0]):
@@ -781,6 +823,13 @@ def eval_seq(ctx, c, cl, recs, mo):
                 if fc is not None:
                     idx = cl[1].get("index") if isinstance(cl[1], dict) else None
                     if idx is not None:
+                        single = {"kind": "row", "row": rows[idx], "tuples": c.get("tuples", False)}
+                        f1, d1 = fresh_oracle(single)
+                        if f1 is not None:
+                            # not a matter of what was serialised before: report (and shrink) it as a row
+                            _RECORD_HISTORY[0] = True
+                            _fail_row(ctx, single, f1, d1, None)
+                            return
                         for cand in [[rows[idx]]] + [[rows[j], rows[idx]] for j in range(idx - 1, -1, -1)][:8]:
                             c2 = dict(c, rows=cand)
                             f2, d2 = fresh_oracle(c2)
@@ -988,6 +1037,385 @@ def eval_glue(ctx, c, info, mo):
         ctx.disagree(c, {"decode": g}, {"decode": want}, "the record of a non-native item does not decode to its stated image")
 
 
+# --------------------------------------------------------------------------- two callers at the same time
+#
+# The statement says "every record the encoder emits is accepted by the decoder" and "decoding it returns
+# an equal row" of *every* record: it does not restrict who else is using the encoder meanwhile.  On the
+# tree as it is, `as_bytes` and `from_bytes` are functions of their argument (and the clock) alone, so
+# nothing here depends on a schedule; state shared between calls (a reusable module-level buffer, a
+# scratch list on the class, a memo) makes the emitted record depend on what another caller does between
+# two source lines.  The detector runs two real calls in two threads under the deterministic
+# line-granular scheduler of C19 (harness/sched.py: exactly one thread runs, hand-over only at `line`
+# events of frames whose code is defined in orso/row.py or is the source-level shadow decoder) over
+# every schedule with a bounded number of pre-emptions and judges every outcome by the property.
+
+_CONC = {}
+
+
+def path_codes():
+    """Every code object defined in orso/row.py (functions, methods, properties, nested functions) and the
+    shadow of `from_bytes_cython`: the frames in which a hand-over may happen."""
+    if "codes" in _CONC:
+        return _CONC["codes"]
+    import types
+
+    import orso.row as rowmod
+
+    out = set()
+
+    def add(code):
+        if code not in out:
+            out.add(code)
+            for k in code.co_consts:
+                if isinstance(k, types.CodeType):
+                    add(k)
+
+    def visit(obj, depth=0):
+        if isinstance(obj, types.FunctionType):
+            if obj.__code__.co_filename == rowmod.__file__:
+                add(obj.__code__)
+        elif isinstance(obj, (classmethod, staticmethod)):
+            visit(obj.__func__)
+        elif isinstance(obj, property):
+            for f in (obj.fget, obj.fset, obj.fdel):
+                if f is not None:
+                    visit(f)
+        elif isinstance(getattr(obj, "func", None), types.FunctionType):  # functools.cached_property / partial
+            visit(obj.func)
+        elif isinstance(getattr(obj, "__wrapped__", None), types.FunctionType):  # functools.wraps / lru_cache
+            visit(obj.__wrapped__)
+        elif isinstance(obj, type) and depth < 2 and getattr(obj, "__module__", None) == rowmod.__name__:
+            for v in list(vars(obj).values()):
+                visit(v, depth + 1)
+
+    for v in list(vars(rowmod).values()):
+        visit(v)
+    f = shadow()[0]
+    if f is not None and hasattr(f, "__code__"):
+        add(f.__code__)
+    _CONC["codes"] = out
+    return out
+
+
+def module_state():
+    """Contents of the mutable containers reachable by name from orso.row (module globals, attributes of
+    `Row`, default arguments of its functions): what a call could leave behind for the next one."""
+    import types
+
+    import orso.row as rowmod
+
+    snap = {}
+
+    def look(name, v):
+        if isinstance(v, (bytearray, list, dict, set)):
+            try:
+                snap[name] = repr(v)[:4000]
+            except Exception:
+                snap[name] = "<unprintable %d>" % id(v)
+
+    for k, v in list(vars(rowmod).items()):
+        if k.startswith("__"):
+            continue
+        look(k, v)
+        if isinstance(v, types.FunctionType) and v.__module__ == rowmod.__name__:
+            for i, d in enumerate(v.__defaults__ or ()):
+                look("%s.<default %d>" % (k, i), d)
+    for k, v in list(vars(rowmod.Row).items()):
+        if not k.startswith("__"):
+            look("Row." + k, v)
+    return snap
+
+
+def state_touched():
+    """Names of module-level containers of orso.row whose content two sequential calls of different rows
+    change (never a violation in itself: a hint where to spend schedules, reported in the evidence)."""
+    if "touched" in _CONC:
+        return _CONC["touched"]
+    R = row_class(2)
+    before = module_state()
+    touched = set()
+    try:
+        for values in ((1, "a"), ("x" * 300, None), (1, "a")):
+            rec = R(values).as_bytes
+            after = module_state()
+            touched |= {k for k in set(before) | set(after) if before.get(k) != after.get(k)}
+            before = after
+            R.from_bytes(rec)
+            after = module_state()
+            touched |= {k for k in set(before) | set(after) if before.get(k) != after.get(k)}
+            before = after
+    except Exception:
+        pass
+    _CONC["touched"] = sorted(touched)
+    return _CONC["touched"]
+
+
+def conc_prepare(case):
+    """[(thunk, spec, record given to a decoding thread | None)] for the threads of a `conc` case."""
+    prepared = []
+    keep = _RECORD_HISTORY[0]
+    _RECORD_HISTORY[0] = False
+    try:
+        for t in case["threads"]:
+            row = t["row"]
+            R = row_class(len(row), t.get("cls"))
+            values = tuple(to_py(x, t.get("tuples", False)) for x in row)
+            if t["op"] == "enc":
+                obj = R(values)
+                prepared.append(((lambda obj=obj: obj.as_bytes), t, None))
+            else:
+                rec, err = impl_encode({"row": row, "tuples": t.get("tuples", False), "cls": t.get("cls")})
+                if rec is None:
+                    raise InfraError("conc case: the row of a decoding thread is not encodable (%s)" % err)
+                data = apply_desc(rec, t["alter"]) if t.get("alter") else rec
+                prepared.append(((lambda n=len(row), data=data, cls=t.get("cls"): impl_decode(n, data, cls)), t, data))
+    finally:
+        _RECORD_HISTORY[0] = keep
+    return prepared
+
+
+def conc_run(case, prepared=None):
+    """One execution of the threads under `case['schedule']` (then lowest live thread first)."""
+    from .. import sched
+
+    prepared = prepared or conc_prepare(case)
+    src = case.get("decoder") == "src" and shadow()[0] is not None
+    cm = using_source() if src else None
+    if cm:
+        cm.__enter__()
+    try:
+        res = sched.run([p[0] for p in prepared], case.get("schedule") or [], path_codes(), timeout=5.0)
+    finally:
+        if cm:
+            cm.__exit__()
+    res["prepared"] = prepared
+    return res
+
+
+def oracle_conc(case, res):
+    """The property on what the threads returned: (clause, detail) or None."""
+    who = " [while another thread is inside Row.as_bytes / Row.from_bytes]"
+    for i, ((_, t, data), out) in enumerate(zip(res["prepared"], res["outcomes"])):
+        row = t["row"]
+        if out is None:
+            continue
+        if t["op"] == "enc":
+            if out[0] != "ok":
+                return "the encoder refuses a row of the value domain (raises %s)%s" % (out[1], who), {"thread": i, "row": row}
+            rec = out[1]
+            if not isinstance(rec, bytes):
+                return "the encoder returns %s instead of bytes%s" % (type(rec).__name__, who), {"thread": i, "row": row}
+            outs = decode_all(len(row), [rec], t.get("cls"))
+            for w in ("bin", "src", "direct"):
+                if outs[w] is None:
+                    continue
+                got, exc = outs[w][0]
+                if got[0] != "ok":
+                    return "an emitted record is rejected by the decoder (%s)%s%s" % (exc, WHO[w], who), {"thread": i, "row": row, "record": rec}
+                back = [it[1] if it[0] == "v" else it for it in got[1]]
+                if not wire.same(back, row):
+                    return "round trip returns a different row" + WHO[w] + who, {"thread": i, "row": row, "record": rec, "decoded": back}
+        else:
+            if out[0] != "ok":
+                return "the decoder's caller raised %s%s" % (out[1], who), {"thread": i}
+            got, exc = out[1]
+            w = WHO["src"] if case.get("decoder") == "src" else ""
+            if t.get("alter"):
+                if got[0] == "ok":
+                    return "%s record is accepted and decoded into a row%s%s" % (_LABEL.get(t["alter"][0], "altered"), w, who), {"thread": i, "data": data}
+                if exc != "DataError":
+                    return "%s record raises %s instead of a data error%s%s" % (_LABEL.get(t["alter"][0], "altered"), exc, w, who), {"thread": i, "data": data}
+            else:
+                if got[0] != "ok":
+                    return "an emitted record is rejected by the decoder (%s)%s%s" % (exc, w, who), {"thread": i, "row": row, "record": data}
+                back = [it[1] if it[0] == "v" else it for it in got[1]]
+                if not wire.same(back, row):
+                    return "round trip returns a different row" + w + who, {"thread": i, "row": row, "record": data, "decoded": back}
+    return None
+
+
+_LABEL = {"t": "torn", "x": "ext", "f": "bitflip", "l": "lenset", "s": "vernib"}
+
+
+def evaluate_conc(ctx, items):
+    """items = [(case, result of conc_run)]: oracle, then the emitted records against the model byte for byte."""
+    lines, plan = [], []
+    for case, res in items:
+        ctx.case(case, True)
+        ctx.hit("kind:conc")
+        ctx.hit("conc:%s" % "+".join(t["op"] + ("-altered" if t.get("alter") else "") for t in case["threads"])
+                + (":src" if case.get("decoder") == "src" else ""))
+        switches = sum(1 for a, b in zip(res["trace"], res["trace"][1:]) if a[0] != b[0])
+        ctx.hit("conc-switches:%s" % (switches if switches < 4 else ">=4"))
+        if res["stuck"]:
+            ctx.hit("conc:stuck")
+            ctx.note("conc_stuck", "the scheduler timed out on %s (a thread blocked outside its control); the run is not judged" % json.dumps(core._jsonable(case))[:300])
+            continue
+        if ctx.replaying and res.get("bad_prefix") is not None:
+            ctx.note("conc_schedule", "the stored schedule could not be followed from step %d on (the source lines changed); continued with the default policy" % res["bad_prefix"])
+        cl = oracle_conc(case, res)
+        if cl is not None and not ctx.replaying:
+            seq = conc_run(dict(case, schedule=[]), res["prepared"])  # thread 0 to its end, then thread 1
+            if not seq["stuck"] and oracle_conc(case, seq) is not None:
+                ctx.hit("conc:fails-sequentially-too")
+                key = json.dumps(core._jsonable(case["threads"]), sort_keys=True, default=repr)
+                if key in _CONC.setdefault("seq_fail", set()):
+                    continue
+                _CONC["seq_fail"].add(key)
+                evaluate(ctx, [{"kind": "row", "row": t["row"], "tuples": t.get("tuples", False), "cls": t.get("cls")} for t in case["threads"]])
+                continue
+        if cl is not None:
+            sig = _norm(cl[0])
+            if not ctx.replaying and (sig in _REPORTED or any(_norm(v.get("sig")) == sig for v in ctx.violations) or _CONC.get("reported", 0) >= 2):
+                ctx.hit("violation-dup:" + sig)  # one defect in shared state shows under many clauses: two replays are enough
+                continue
+            _REPORTED.add(sig)
+            _CONC["reported"] = _CONC.get("reported", 0) + 1
+            ctx.fail(case, cl[0], impl=cl[1], model=None,
+                     detail="schedule = thread ids, one entry per source line executed inside orso/row.py (trace: %s)" % json.dumps(res["trace"])[:600])
+            continue
+        first = len(lines)
+        recs = []
+        for (_, t, _d), out in zip(res["prepared"], res["outcomes"]):
+            if t["op"] == "enc" and out is not None and out[0] == "ok":
+                recs.append((t, out[1]))
+                lines.append("C01 encode " + wire.line(int.from_bytes(out[1][6:14], "big"), t["row"]))
+        plan.append((case, first, recs))
+    if not lines:
+        return
+    mouts = ctx.model.batch(lines)
+    for case, first, recs in plan:
+        for j, (t, rec) in enumerate(recs):
+            me = model_forms(mouts[first + j], "encode")[0]
+            if me[0] != "ok" or me[1] != rec:
+                ctx.disagree(case, {"record": rec, "row": t["row"]}, {"encode": me},
+                             "the record emitted while another thread is inside the encoder/decoder differs from the model")
+                break
+
+
+def conc_explore(ctx, base, bound, limit):
+    """Schedules of `base`'s two threads over real executions.  bound 1: one thread executes i lines, the
+    other runs to its end, the first finishes — for every i and either thread first (every schedule with
+    one pre-emption).  bound 2: the first executes i lines, the other j lines, the first finishes, the
+    other finishes — every (i, j).  Returns (number of schedules, complete?)."""
+    from .. import sched
+
+    prepared = conc_prepare(base)
+    thunks = [p[0] for p in prepared]
+    src = base.get("decoder") == "src" and shadow()[0] is not None
+    cm = using_source() if src else None
+    if cm:
+        cm.__enter__()
+    items, seen = [], set()
+    complete = True
+
+    def one(prefix, policy):
+        res = sched.run(thunks, prefix, path_codes(), timeout=5.0, policy=policy)
+        res["prepared"] = prepared
+        s = tuple(t for t, _ in res["trace"])
+        if s not in seen or res["stuck"]:
+            seen.add(s)
+            items.append((dict(base, schedule=list(s)), res))
+        return res
+
+    def stop():
+        return (limit is not None and len(items) >= limit) or ctx.time_left() < 6
+
+    try:
+        for first in (0, 1):
+            other = 1 - first
+            i = 0
+            while complete:
+                if bound == 1:
+                    res = one([first] * i, lambda alive, step: other if other in alive else alive[0])
+                    done_i = res["bad_prefix"] is not None
+                else:
+                    j = 1
+                    done_i = False
+                    while True:
+                        res = one([first] * i + [other] * j, lambda alive, step: first if first in alive else alive[0])
+                        if res["stuck"] or stop():
+                            complete = False
+                            break
+                        if res["bad_prefix"] is not None:
+                            done_i = res["bad_prefix"] < i  # the first thread has fewer than i lines
+                            break
+                        j += 1
+                if res["stuck"] or stop():
+                    complete = False
+                if done_i or not complete:
+                    break
+                i += 1
+            if not complete:
+                break
+    finally:
+        if cm:
+            cm.__exit__()
+    evaluate_conc(ctx, items)
+    return len(items), complete
+
+
+LARGE_ROW = [None, True, -5, 2.5, "some longer text " * 20, b"\x00\x01\x02" * 50, [1, [2, 3]], {"k": "v"}]
+
+
+def conc_bases(rng, n_random):
+    E = lambda row, **kw: dict({"op": "enc", "row": row}, **kw)  # noqa: E731
+    D = lambda row, **kw: dict({"op": "dec", "row": row}, **kw)  # noqa: E731
+    out = [
+        # two encoders, payloads of different length (1 / 2 bytes; 3 / several hundred; below and above 64 KiB)
+        {"kind": "conc", "threads": [E([]), E([0])]},
+        {"kind": "conc", "threads": [E([1, "a"]), E(LARGE_ROW)]},
+        {"kind": "conc", "threads": [E(["x" * 300]), E([b"y" * 70000])]},
+        # the same length and different content; the same row twice; different classes
+        {"kind": "conc", "threads": [E([1]), E([2])]},
+        {"kind": "conc", "threads": [E([-0.0, None]), E([-0.0, None])]},
+        {"kind": "conc", "threads": [E([1, "a"], cls="base"), E([[1, 2], {"k": None}], tuples=True)]},
+        {"kind": "conc", "threads": [E([1, "a"], cls="tuples_only"), E([])]},
+        # an encoder and a decoder
+        {"kind": "conc", "threads": [E([0]), D(["ab", None])]},
+        {"kind": "conc", "threads": [E(LARGE_ROW), D([])], "decoder": "src"},
+        {"kind": "conc", "threads": [E([]), D([1, "a"], alter=["t", 16])], "decoder": "src"},
+        # two decoders: the binary (one line of glue each) and the .pyx as written (line by line)
+        {"kind": "conc", "threads": [D([]), D([0, "a"])]},
+        {"kind": "conc", "threads": [D([]), D([0, "a"])], "decoder": "src"},
+        {"kind": "conc", "threads": [D([7, [1, 2]]), D([7, [1, 2]], alter=["x", b"\x00"])], "decoder": "src"},
+        {"kind": "conc", "threads": [D(LARGE_ROW), D([None], alter=["t", 14])], "decoder": "src"},
+        {"kind": "conc", "threads": [D([1]), D([2], alter=["f", 3, 0])]},
+    ]
+    for _ in range(n_random):
+        a, b = random_row(rng)["row"], random_row(rng)["row"]
+        q = rng.random()
+        ta = E(a) if q < 0.7 else D(a)
+        tb = E(b) if rng.random() < 0.6 else D(b)
+        c = {"kind": "conc", "threads": [ta, tb]}
+        if rng.random() < 0.5:
+            c["decoder"] = "src"
+        out.append(c)
+    return out
+
+
+def conc_phase(ctx):
+    """All schedules with one pre-emption for every pair (quick); two pre-emptions, bounded per pair, in the
+    thorough tier and whenever sequential calls are seen to change a module-level container of orso.row."""
+    touched = state_touched()
+    ctx.note("module_state", "containers reachable by name from orso.row whose content changes across sequential as_bytes/from_bytes calls: %s"
+             % (touched or "none"))
+    for name in touched:
+        ctx.hit("module-state-touched:" + name)
+    scope = []
+    bases = conc_bases(ctx.rng, ctx.scale(4, 40))
+    for i, base in enumerate(bases):
+        if ctx.time_left() < 10:
+            scope.append("stopped after %d of %d pairs (time)" % (i, len(bases)))
+            break
+        deep = ctx.tier == "thorough" or (touched and i < 4)
+        bound, limit = (2, ctx.scale(400, 1500)) if deep and i < 8 else (1, 400)
+        n, complete = conc_explore(ctx, base, bound, limit)
+        scope.append("%s%s: %s %d schedules, <= %d pre-emptions" % ("+".join(t["op"] for t in base["threads"]),
+                                                                     ":src" if base.get("decoder") == "src" else "", "all" if complete else "first", n, bound))
+    ctx.note("conc_scope", scope)
+
+
 # --------------------------------------------------------------------------- generators
 
 SCALARS = (
@@ -1043,6 +1471,10 @@ def exhaustive_cases():
             yield {"kind": "row", "row": [a, b]}
     for v in [[1, 2], {"a": [1, 2]}, [[1, "x"], [2, "y"]]]:
         yield {"kind": "row", "row": [v, v], "tuples": True}
+    # payload lengths at which a byte of the length field crosses 0x7f/0x80 or 0xff/0x100 (a signed read, a dropped byte)
+    for n in (127, 128, 129, 255, 256, 257, 32767, 32768, 32769):
+        hdr = 2 if n - 3 < 256 else 3  # 0x91, then bin8 / bin16 header
+        yield {"kind": "row", "row": [b"\x5a" * (n - 1 - hdr)], "light": n > 600, "why": "payload-length-%d" % n}
     for cls in ("tuples_only", "base"):
         for row in ([], [None], [1, "a"], [-0.0, True, b"x", [1, {"k": 2}]]):
             yield {"kind": "row", "row": row, "cls": cls}
@@ -1290,6 +1722,20 @@ def reserved_cases(rng):
     for x in ("a", None, [1], b"x", {}, ["__datetime__", 1]):
         out.append({"kind": "reserved", "row": [["__datetime__", x]]})
     out.append({"kind": "reserved", "row": [["__datetime__", 5]], "tuples": True})
+    # the range of datetime.fromtimestamp (model: RowCodec.tsMin / tsEnd, measured for a process in UTC): exactly at,
+    # one before / after each bound, as int and as float; non-finite floats; the 64-bit limits
+    import math
+    import time
+
+    if time.timezone == 0 and not time.daylight:
+        lo, end = -62135510400, 253402300800
+        for x in (lo, lo - 1, lo + 1, end - 1, end, end + 1, -62135596800, 2**63 - 1, 2**63, 2**64 - 1, -(2**63), 10**12, -(10**12),
+                  float(lo), math.nextafter(float(lo), -math.inf), math.nextafter(float(lo), math.inf), float(end),
+                  math.nextafter(float(end), -math.inf), math.nextafter(float(end), math.inf), float("nan"), float("inf"), float("-inf"),
+                  1e18, -1e18, 1e300, -1e300, -0.0, 5e-324, -5e-324, 0.9999995, 253402300799.5):
+            out.append({"kind": "reserved", "row": [["__datetime__", x]], "why": "fromtimestamp-range"})
+    else:
+        out.append({"kind": "reserved", "row": [["__datetime__", 0]], "why": "fromtimestamp-range-skipped-not-utc"})
     return out
 
 
@@ -1311,7 +1757,8 @@ def glue_cases():
 def cap_cases(ctx):
     big = [{"kind": "big", "n": MAX + 1}, {"kind": "big", "n": MAX}, {"kind": "big", "n": MAX - 13, "shape": "str"},
            {"kind": "big", "n": MAX - 14}, {"kind": "big", "n": 70000}, {"kind": "big", "n": 70000, "cut": 3},
-           {"kind": "big", "n": 70000, "ext": 2}, {"kind": "big", "n": 65536 + 14}, {"kind": "big", "n": 65536 - 14, "shape": "str"}]
+           {"kind": "big", "n": 70000, "ext": 2}, {"kind": "big", "n": 65536 + 14}, {"kind": "big", "n": 65536 - 14, "shape": "str"},
+           {"kind": "big", "n": 8 * 1024 * 1024}]  # 0x800000: the third length byte crosses 0x7f/0x80
     if ctx.tier == "thorough":
         big += [{"kind": "big", "n": MAX + 1000}, {"kind": "big", "n": MAX, "cut": 1}, {"kind": "big", "n": MAX, "ext": 1},
                 {"kind": "big", "n": MAX, "shape": "str"}, {"kind": "big", "n": MAX - 1}, {"kind": "big", "n": MAX - 15},
@@ -1325,7 +1772,7 @@ def run(ctx):
     ctx.note("rule", "one case = one row (encoded, decoded by the loaded binary and by compiled.pyx's source-level shadow, and decoded again under "
              "every strict prefix up to 4 KiB records / sampled beyond, 4 extensions, the 36 single-bit flips and 15 other values of the version "
              "nibble, up to 15 other length fields, 13 unguarded bit flips), or one sequence of rows serialised in one process, or one arbitrary "
-             "buffer; non-trivial = non-empty row that was emitted, a sequence of at least two rows, or a buffer of at least header size; distinct "
+             "buffer, or one complete line-level schedule of two real as_bytes/from_bytes calls in two threads; non-trivial = non-empty row that was emitted, a sequence of at least two rows, or a buffer of at least header size; distinct "
              "by canonical JSON")
     ctx.note("assumptions", [
         "ormsgpack is external: its format choices, its pack depth limit (255 containers) and unpack recursion limit (1023 levels) are parameters of the model, validated byte-for-byte / at the boundary by correspondence",
@@ -1346,6 +1793,7 @@ def run(ctx):
              "for each, every tear point, the 36 guarded bit flips, every other version nibble, 4 extensions" % (len(SCALARS) + len(small_containers()), n_ex))
     evaluate(ctx, list(float32_cases()) + list(family_cases()) + reserved_cases(rng) + refuse_cases() + glue_cases())
     evaluate(ctx, seq_cases(rng, ctx.scale(60, 1500)))
+    conc_phase(ctx)
     evaluate(ctx, boundary_cases(ctx))
     evaluate(ctx, shape_cases(ctx))
     n_rows = ctx.scale(450, 12000)
